@@ -507,6 +507,7 @@ func (ex *Exec) mapLenIn(st *State, m Val, mt *types.Map) *T {
 func (ex *Exec) mapSet(m Val, mt *types.Map, k, v Val) {
 	has, val := ex.mapHeaps(mt)
 	ex.assert("S", "nil-map-write", Ne(m.T, I(0)))
+	ex.checkWrite("$M.has", m.T)
 	kk := ex.mapKey(ex.coerce(k, mt.Key()))
 	hs := ex.get(ex.st, has)
 	vs := ex.get(ex.st, val)
@@ -519,6 +520,9 @@ func (ex *Exec) mapSet(m Val, mt *types.Map, k, v Val) {
 
 func (ex *Exec) mapDelete(m Val, mt *types.Map, k Val) {
 	has, _ := ex.mapHeaps(mt)
+	if ex.oldState != nil {
+		ex.branch(ex.st, Ne(m.T, I(0)), func() { ex.checkWrite("$M.has", m.T) })
+	}
 	kk := ex.mapKey(ex.coerce(k, mt.Key()))
 	hs := ex.get(ex.st, has)
 	had := And(Ne(m.T, I(0)), Select(Select(hs, m.T), kk))
